@@ -34,7 +34,7 @@ def shard_env(extra=None):
     env["PYTHONPATH"] = VERIF_ROOT + os.pathsep + REPO
     env["PYTHONDONTWRITEBYTECODE"] = "1"
     env["MPLBACKEND"] = "Agg"
-    env.setdefault("PYTHONHASHSEED", "0")
+    env["PYTHONHASHSEED"] = os.environ.get("VMON_HASHSEED", "0")
     env["PYTHONWARNINGS"] = "ignore"
     env["VMON_REPO"] = REPO
     env["OMP_NUM_THREADS"] = "1"
@@ -58,7 +58,10 @@ def run_check(prop: str, tier: str, seed: int, only_shard: int | None = None, ns
         for s in shards:
             out = os.path.join(work, f"shard{s}.json")
             log = open(os.path.join(work, f"shard{s}.log"), "w")
-            env = shard_env(dict(VMON_WORK=os.path.join(work, f"w{s}")))
+            # every shard runs under its own (deterministic) string-hash seed, so that behaviour depending on set/dict-of-str
+            # iteration order is exercised under 16 different orders; VMON_HASHSEED pins one value for all shards
+            hs = os.environ.get("VMON_HASHSEED") or str(0 if s == 0 else (seed * 1000003 + s * 7919 + 1) % 4294967295)
+            env = shard_env(dict(VMON_WORK=os.path.join(work, f"w{s}"), PYTHONHASHSEED=hs))
             os.makedirs(env["VMON_WORK"], exist_ok=True)
             p = subprocess.Popen([PY, "-m", "vmon.worker", prop, tier, str(seed), str(s), str(nshards), out],
                                  cwd=VERIF_ROOT, env=env, stdout=log, stderr=subprocess.STDOUT)
